@@ -8,7 +8,11 @@ Import ListNotations.
 Open Scope N_scope.
 
 (* the user's context handles the types H: distinct, each at most once *)
-Definition ctx_ok (H : list tid) : Prop := NoDup H.
+Definition ctx_nodup (H : list tid) : Prop := NoDup H.
+(* component ids and per-archetype component counts travel as u32 in both formats (the harness's
+   ComponentId is a u32, as in the documented example): round trips are claimed for such contexts *)
+Definition ctx_ok (H : list tid) : Prop :=
+  NoDup H /\ (forall t, In t H -> t < 4294967296) /\ lenN H < 4294967296.
 
 (* what a faithful copy of [w] restricted to the handled types and to the entities satisfying q denotes *)
 Definition handled (H : list tid) (l : comps) : comps := filter (fun c => mem_tid (fst c) H) l.
@@ -43,6 +47,16 @@ Definition c14_roundtrip_row_stmt : Prop :=
     exists w' d, row_de u H reader (row_ser H w q) = DOk (w', d) /\ WInv u w' /\
                  forall h, abs w' h = copy_spec H w q h.
 
+(* without the u32 condition on the context's ids the statement is false (refuted in SerdeProofs.v) *)
+Definition c14_roundtrip_row_anyid_stmt : Prop :=
+  forall u H w q reader, total_inj u -> ctx_nodup H -> WInv u w -> fits w -> flushed w -> serialisable u H w ->
+    exists w' d, row_de u H reader (row_ser H w q) = DOk (w', d) /\ WInv u w' /\
+                 forall h, abs w' h = copy_spec H w q h.
+Definition c14_roundtrip_col_anyid_stmt : Prop :=
+  forall u H w q reader, total_inj u -> ctx_nodup H -> WInv u w -> fits w -> flushed w -> serialisable u H w ->
+    exists w', col_de u H reader (col_ser H w q) = DOk w' /\ WInv u w' /\
+               forall h, abs w' h = copy_spec H w q h.
+
 (* C14: round trip, column format, both readers *)
 Definition c14_roundtrip_col_stmt : Prop :=
   forall u H w q reader, total_inj u -> ctx_ok H -> WInv u w -> fits w -> flushed w -> serialisable u H w ->
@@ -53,7 +67,7 @@ Definition c14_roundtrip_col_stmt : Prop :=
    decoder returns an error or a world satisfying the invariant - it never panics.
    Parametric in the totality of the two id-targeted spawns (proved in WorldProofs5.v). *)
 Definition c15_total_row_stmt : Prop :=
-  forall u H reader t, total_inj u -> ctx_ok H ->
+  forall u H reader t, total_inj u -> ctx_nodup H ->
     match row_de u H reader t with
     | DOk (w, _) => WInv u w /\ fits w
     | DErr => True
@@ -61,7 +75,7 @@ Definition c15_total_row_stmt : Prop :=
     end.
 
 Definition c15_total_col_stmt : Prop :=
-  forall u H reader t, total_inj u -> ctx_ok H ->
+  forall u H reader t, total_inj u -> ctx_nodup H ->
     match col_de u H reader t with
     | DOk w => WInv u w /\ fits w
     | DErr => True
